@@ -63,7 +63,8 @@ def run(chk, replay=None):
     if len(cases) < 20000:
         raise MachineryError('Gen produced %d cases' % len(cases))
     if quick:
-        cases = cases[chk.seed % 3::3]
+        pick = random.Random(chk.seed * 7919 + 5)
+        cases = [c for c in cases if pick.random() < 1.0 / 3]
 
     def make_result(k, valid, i):
         r = EvaluationResult()
